@@ -48,6 +48,8 @@ pub struct EndSpec {
   pub maxmsgsize: Option<i64>,
   pub heartbeat: Option<(i32, i32)>,
   pub sndbatch: Option<(i32, i32)>,
+  /// option ids to leave out of `options()` (e.g. a PLAIN server without a configured password)
+  pub drop_opts: Vec<i32>,
 }
 
 impl EndSpec {
@@ -64,6 +66,7 @@ impl EndSpec {
       maxmsgsize: None,
       heartbeat: None,
       sndbatch: None,
+      drop_opts: vec![],
     }
   }
 
@@ -120,6 +123,7 @@ impl EndSpec {
       o.push((opt::SNDBATCH_COUNT, i(c)));
       o.push((opt::SNDBATCH_BYTES, i(b)));
     }
+    o.retain(|(id, _)| !self.drop_opts.contains(id));
     o
   }
 
